@@ -485,6 +485,26 @@ def _iter_source(engine, st, it):
         st.assume(z3.ForAll([i, j], z3.Implies(z3.And(i >= 0, i < j, j < n), z3.Select(at, i) != z3.Select(at, j))))
         ety = ty[1] if len(ty) > 1 else None
         return {"kind": "set", "n": n, "at": at, "oid": oid, "mem": mem, "elem": lambda st0, k: engine.typed(st0, z3.Select(at, k), ety)}
+    if isinstance(it, ArgPack):
+        from .b_names import pk_len, pk_nth
+        n = pk_len(it.t)
+        st.assume(n >= 0)
+        i0 = z3.Int("i!pki")
+        at = z3.Lambda([i0], pk_nth(it.t, i0))
+        return {"kind": "pack", "n": n, "at": at, "oid": z3.IntVal(-7), "elem": lambda st0, k: Z(pk_nth(it.t, k), "any")}
+    if isinstance(it, Z) and it.ty == "dictitems":
+        kd = st.objreg[engine.concrete_id(it.t)]
+        if kd.base is not None and not kd.known:
+            # items() of a symbolic **kwargs: some enumeration of (key, value) pairs, one per key
+            from .b_names import kw_get
+            n = fresh("kw_n", I)
+            keys = fresh("kw_keys", z3.ArraySort(I, I))
+            st.assume(n >= 0)
+            i, j = z3.Ints("i!kw j!kw")
+            st.assume(z3.ForAll([i, j], z3.Implies(z3.And(i >= 0, i < j, j < n), z3.Select(keys, i) != z3.Select(keys, j))))
+            base = kd.base
+            return {"kind": "kwitems", "n": n, "at": keys, "oid": z3.IntVal(-8), "base": base,
+                    "elem": lambda st0, k: TupleV([Z(Val.strv(z3.Select(keys, k)), "str"), Z(kw_get(base, z3.Select(keys, k)), "any")])}
     raise Unsupported("for over %r" % (it,))
 
 
